@@ -265,7 +265,11 @@ def same_array(a, b, trials: int = 4, seed: int = 20260929) -> Optional[bool]:
     rng = np.random.default_rng(seed)
     n = 6
     # candidate ranks per atom: try 1-d first (grids, series), then scalars, then 2-d
-    makers = [lambda: np.sort(rng.uniform(0.2, 3.0, n)), lambda: float(rng.uniform(0.3, 2.5)), lambda: rng.uniform(0.2, 3.0, (4, n))]
+    # arrays are drawn at several magnitudes so that periodic operators (wrap at 360, modulo) are exercised on both
+    # sides of their period, not only where they act as the identity
+    scale = [1.0]
+    makers = [lambda: np.sort(rng.uniform(0.2, 3.0, n)) * scale[0], lambda: float(rng.uniform(0.3, 2.5)),
+              lambda: rng.uniform(0.2, 3.0, (4, n)) * scale[0]]
     n_equal = n_diff = 0
     nontrivial_any = False
     choices = [[_RANK_TO_MAKER[HINTS[at]]] if at in HINTS else [0, 1, 2] for at in atoms]
@@ -273,7 +277,8 @@ def same_array(a, b, trials: int = 4, seed: int = 20260929) -> Optional[bool]:
         ok_all = True
         witness = False
         nontrivial = False
-        for _ in range(trials):
+        for trial in range(trials):
+            scale[0] = (1.0, 47.0, 173.0, 1.0)[trial % 4]
             env = {at: makers[r]() for at, r in zip(atoms, ranks)}
             try:
                 with np.errstate(all="ignore"):
